@@ -592,6 +592,116 @@ def desugar_ref_pattern_for(body, rules):
     return out
 
 
+def desugar_iter_mut(body, rules):
+    """R22: a `for` loop over the elements of a slice by reference, whose variable is only ever used dereferenced (`*b`):
+         for b in E . iter_mut ( ) {B}                ->  let __sK = E' ; let mut __ikK : usize = 0 ; while __ikK < __sK . len ( ) { let __jK = __ikK ; __ikK += 1 ; B[*b := __sK[__jK]] }
+         for ( i , b ) in E . iter_mut ( ) . enumerate ( ) {B}  ->  the same with `let i = __jK ;` in front of B
+         for b in E . iter_mut ( ) . rev ( ) {B}      ->  let __sK = E' ; let mut __ikK : usize = __sK . len ( ) ; while __ikK > 0 { __ikK -= 1 ; B[*b := __sK[__ikK]] }
+         for b in E . iter ( ) . rev ( ) {B}          ->  as the previous line (read-only)
+       E' is E when E is a call returning the slice reference (`buf . int ( )`) and `& mut E` when E is an index expression
+       (`self . data [ 0 .. len ]`; `iter_mut` auto-borrows).  The iterator yields a reference to each element in index order
+       (reverse order for `.rev()`), `*b` is that element; the counter is advanced before B so that `continue` / `break` in B behave
+       as in the original.  B is copied token for token apart from `* b`.  Anything that does not match this exact shape (e.g. `b`
+       used without `*`) is left alone and does not compile under Verus (exit 2)."""
+    out = list(body)
+    i = 0
+    kdone = 0
+    while i < len(out):
+        if not (out[i].k == "id" and out[i].s == "for"):
+            i += 1
+            continue
+        # pattern
+        idx_n = None
+        if i + 2 < len(out) and out[i + 1].k == "id" and out[i + 2].s == "in":
+            var = out[i + 1].s
+            j = i + 3
+        elif i + 6 < len(out) and out[i + 1].s == "(" and out[i + 2].k == "id" and out[i + 3].s == "," and out[i + 4].k == "id" \
+                and out[i + 5].s == ")" and out[i + 6].s == "in":
+            idx_n, var = out[i + 2].s, out[i + 4].s
+            j = i + 7
+        else:
+            i += 1
+            continue
+        # header up to the body-open brace
+        depth = 0
+        k = j
+        ok = True
+        while k < len(out):
+            sk = out[k].s
+            if out[k].k == "p":
+                if sk in ("(", "["):
+                    depth += 1
+                elif sk in (")", "]"):
+                    depth -= 1
+                elif sk == "{" and depth == 0:
+                    break
+                elif sk in (";", "}"):
+                    ok = False
+                    break
+            k += 1
+        if not ok or k >= len(out):
+            i += 1
+            continue
+        hdr = [x.s for x in out[j:k]]
+        mode = None
+        for suffix, m in (([".", "iter_mut", "(", ")", ".", "enumerate", "(", ")"], "enum"), ([".", "iter_mut", "(", ")", ".", "rev", "(", ")"], "rev"),
+                          ([".", "iter", "(", ")", ".", "rev", "(", ")"], "revro"), ([".", "iter_mut", "(", ")"], "fwd")):
+            if len(hdr) > len(suffix) and hdr[-len(suffix):] == suffix:
+                mode = m
+                expr = out[j:k - len(suffix)]
+                break
+        if mode is None or (mode == "enum") != (idx_n is not None):
+            i += 1
+            continue
+        bopen = k
+        bclose = match_close(out, bopen)
+        inner = out[bopen + 1:bclose]
+        # every use of the loop variable must be a dereference `* var`
+        uses_ok = True
+        for q, t in enumerate(inner):
+            if t.k == "id" and t.s == var:
+                prev = inner[q - 1] if q else None
+                pprev = inner[q - 2] if q > 1 else None
+                if not (prev is not None and prev.s == "*" and not (pprev is not None and (pprev.k in ("id", "num") and pprev.s not in ("if", "return", "in", "else", "match", "while") or pprev.s in (")", "]")))):
+                    uses_ok = False
+        if not uses_ok:
+            i += 1
+            continue
+        sk_, ik_, jk_ = "__s%d" % kdone, "__ik%d" % kdone, "__j%d" % kdone
+        def T(kk, s_):
+            return Tok(kk, s_, out[i].a, out[i].b)
+        rev = mode in ("rev", "revro")
+        idx_tok = ik_ if rev else jk_
+        pre = [T("id", "let"), T("id", sk_), T("p", "=")]
+        if expr and expr[-1].s == "]":
+            pre += [T("p", "&")] + ([] if mode == "revro" else [T("id", "mut")])
+        pre += list(expr) + [T("p", ";"), T("id", "let"), T("id", "mut"), T("id", ik_), T("p", ":"), T("id", "usize"), T("p", "=")]
+        if rev:
+            pre += [T("id", sk_), T("p", "."), T("id", "len"), T("p", "("), T("p", ")"), T("p", ";"),
+                    T("id", "while"), T("id", ik_), T("p", ">"), T("num", "0"), T("p", "{"),
+                    T("id", ik_), T("p", "-="), T("num", "1"), T("p", ";")]
+        else:
+            pre += [T("num", "0"), T("p", ";"),
+                    T("id", "while"), T("id", ik_), T("p", "<"), T("id", sk_), T("p", "."), T("id", "len"), T("p", "("), T("p", ")"), T("p", "{"),
+                    T("id", "let"), T("id", jk_), T("p", "="), T("id", ik_), T("p", ";"), T("id", ik_), T("p", "+="), T("num", "1"), T("p", ";")]
+            if idx_n:
+                pre += [T("id", "let"), T("id", idx_n), T("p", "="), T("id", jk_), T("p", ";")]
+        new_inner = []
+        q = 0
+        while q < len(inner):
+            if inner[q].s == "*" and q + 1 < len(inner) and inner[q + 1].k == "id" and inner[q + 1].s == var:
+                new_inner += [T("id", sk_), T("p", "["), T("id", idx_tok), T("p", "]")]
+                q += 2
+                continue
+            new_inner.append(inner[q])
+            q += 1
+        out = out[:i] + pre + new_inner + out[bclose:]
+        rules.fired.add("R22")
+        kdone += 1
+        i += len(pre)
+    return out
+
+
 def drop_unused_rev(body, rules):
     """R16: `for _x in ( <lo> .. <hi> ) . rev ( ) {` -> `for _x in <lo> .. <hi> {` when the loop variable starts with `_`
     and does not occur in the loop body: the reversed range yields the same number of values and nothing observes their
@@ -779,6 +889,16 @@ def render_fn(idx, fs, table, ctx):
             k += 1
     except ValueError:
         pass
+    # R23: a `mut self` parameter becomes `self` with `let mut self_m = self;` as the first statement and every `self` of the body
+    # renamed to `self_m` (a `mut` binding of a by-value parameter is a local mutable copy; Verus rejects `mut self`)
+    mut_self = False
+    for k in range(len(head_s) - 1):
+        if head_s[k] == "mut" and head_s[k + 1] == "self" and head_s[k - 1] in ("(", ","):
+            del head_s[k]
+            mut_self = True
+            param_lets.append("let mut self_m = self ;")
+            rules.fired.add("R23")
+            break
     if fs.newname:
         head_s[1] = fs.newname
     if fs.selfty:
@@ -828,6 +948,10 @@ def render_fn(idx, fs, table, ctx):
     body = desugar_zip_index(body, rules)
     body = desugar_enumerate(body, rules)
     body = desugar_ref_pattern_for(body, rules)
+    body = desugar_iter_mut(body, rules)
+    if mut_self:
+        # R23 (see the signature): every `self` of the body is the mutable local copy
+        body = [Tok(t.k, "self_m", t.a, t.b) if (t.k == "id" and t.s == "self") else t for t in body]
     # loop invariants and anchored hints are inserted by token position
     inserts = {}
     if fs.loops:
